@@ -991,7 +991,7 @@ fn run_config(cfg: &Cfg) -> ! {
     }
     let lat = image_lattice(true);
     let ln = lat.len();
-    let extra = if quick { 60 } else { 400 };
+    let extra = if quick { 60 } else { 3000 };
     for k in 0..extra { let i = k * 7919 + 13; let t = [lat[i % ln], lat[(i / ln + i * 3) % ln], lat[(i / ln / ln + i * 7) % ln]]; if rank_deficient(&t) { continue; } scenes.push(Scene { tris: vec![STri { v: t, a: PERMS[k % 6] }], bw: 8, bh: 8, vp: (0, 0, 8, 8) }); }
     let ns = scenes.len() as u64;
     rep.set("scenes", ns);
@@ -1004,7 +1004,7 @@ fn run_config(cfg: &Cfg) -> ! {
     }));
     // culling: every visible pool/lattice triangle x viewports incl. axis-mirrored ones x target kinds
     let mut tris: Vec<STri> = pool.clone();
-    for k in 0..(if quick { 300 } else { 3000 }) { let i = k * 104729 + 7; let t = [lat[i % ln], lat[(i / ln + i * 5) % ln], lat[(i / ln / ln + i * 11) % ln]]; if clip_class(&t) != "hidden" && !rank_deficient(&t) { tris.push(STri { v: t, a: PERMS[k % 6] }); } }
+    for k in 0..(if quick { 300 } else { 30000 }) { let i = k * 104729 + 7; let t = [lat[i % ln], lat[(i / ln + i * 5) % ln], lat[(i / ln / ln + i * 11) % ln]]; if clip_class(&t) != "hidden" && !rank_deficient(&t) { tris.push(STri { v: t, a: PERMS[k % 6] }); } }
     for s in [0.3f32, 0.9] { for (cx, cy) in [(0.0f32, 0.0f32), (0.4, -0.3)] { for w in [1.0f32, 0.5, 2.0] { tris.push(STri { v: [[(cx - s) * w, (cy - s) * w, 0.1 * w, w], [(cx + s) * w, (cy - s * 0.8) * w, 0.2 * w, w], [cx * w, (cy + s) * w, 0.0, w]], a: PERMS[0] }); } } }
     let nt = tris.len() as u64;
     let cvps = [(8u32, 8u32, (0u32, 0u32, 8u32, 8u32)), (8, 6, (1, 2, 7, 5)), (8, 8, (8, 0, 0, 8)), (8, 8, (0, 8, 8, 0)), (8, 8, (8, 8, 0, 0)), (16, 9, (0, 0, 16, 9))];
